@@ -156,6 +156,51 @@ def _formula_per_path(ck, repo, nf, rule, fn, qual, spec, key):
     return None
 
 
+def _stacked_rows(nf, pv, sc):
+    """('tiled' | 'interleaved', base canon, count canon) when the value is a per-step quantity laid out over a leading axis:
+    tiled = row t is a copy of the base; interleaved = flat element-wise repetition cut into rows (rows mix components)."""
+    a = pv.single_atom()
+    m = nf.meta.get(a or "", {})
+    f = m.get("fn", "").split(".")[-1]
+    args, kws = m.get("args", []), m.get("kws", {})
+    if f in ("asarray", "array") and len(args) == 1:
+        inner = _stacked_rows(nf, args[0], sc)
+        if inner:
+            return inner
+    if f in ("vstack", "stack", "array", "asarray") and len(args) == 1 and (not kws or (set(kws) == {"axis"} and kws["axis"].canon() == "0")):
+        t = args[0].canon()
+        if t.startswith("⟦") and t.endswith("⟧"):
+            try:
+                comp = ast.parse(t[1:-1], mode="eval").body
+            except SyntaxError:
+                return None
+            if isinstance(comp, (ast.ListComp, ast.GeneratorExp)) and len(comp.generators) == 1 and not comp.generators[0].ifs:
+                g = comp.generators[0]
+                tn = {x.id for x in ast.walk(g.target) if isinstance(x, ast.Name)}
+                if not tn & {x.id for x in ast.walk(comp.elt) if isinstance(x, ast.Name)} and isinstance(g.iter, ast.Call) and isinstance(g.iter.func, ast.Name) and g.iter.func.id == "range" and len(g.iter.args) == 1:
+                    return ("tiled", nf.poly(comp.elt, sc, None).canon(), nf.poly(g.iter.args[0], sc, None).canon())
+        return None
+    if f == "tile" and len(args) == 2 and args[1].elems is not None and len(args[1].elems) == 2 and args[1].elems[1].canon() == "1":
+        return ("tiled", args[0].canon(), args[1].elems[0].canon())
+    if f == "repeat" and len(args) == 2 and kws.get("axis") is not None and kws["axis"].canon() == "0":
+        bm = nf.meta.get(args[0].single_atom() or "", {})
+        at_ = args[0].single_atom() or ""
+        if bm.get("fn") == "subscript" and (at_.endswith("[None]") or at_.endswith("[jax.numpy.newaxis]") or at_.endswith("[numpy.newaxis]")):
+            return ("tiled", bm["args"][0].canon(), args[1].canon())
+    if f == "broadcast_to" and len(args) == 2:
+        shp = args[1]
+        base_shape = f"{args[0].canon()}.shape"
+        lead = [a_ for a_ in shp.atoms() if a_.startswith("(") and a_.endswith(")") and "," not in a_]
+        if base_shape in shp.atoms() and len(lead) == 1 and len(shp.terms) == 2:
+            return ("tiled", args[0].canon(), lead[0][1:-1])
+    if f == "reshape" and len(args) >= 2:
+        im = nf.meta.get(args[0].single_atom() or "", {})
+        jf = im.get("fn", "").split(".")[-1]
+        if jf in ("repeat", "tile") and len(im.get("args", [])) == 2 and not im.get("kws") and im["args"][1].canon() == args[1].canon():
+            return ("interleaved" if jf == "repeat" else "tiled", im["args"][0].canon(), args[1].canon())
+    return None
+
+
 def _min_leaves(nf, atom):
     """Leaves of a nested minimum(...) atom (canonical texts)."""
     m = nf.meta.get(atom, {})
@@ -468,12 +513,25 @@ def run(ck, repo: Repo, tier: str):
         ck.ob("R5-planning-chain", q, "sample/update-functions", ok, f"({ts.qual if ts else None}, {tu.qual if tu else None})", "" if ok else "PETS must plan with cem_sample / cem_update", loc(mi, fn))
         if ok:
             kws = {k: nf.poly(v, sc, rets[0].id).canon() for k, v in ts.kwargs.items()}
-            want = {"n_population": "n_samples", "lb": "vstack((action_space.low))" , "ub": "vstack((action_space.high))"}
-            lbv, ubv = kws.get("lb", ""), kws.get("ub", "")
-            okb = "action_space.low" in lbv and "action_space.high" not in lbv and "action_space.high" in ubv and "action_space.low" not in ubv and lbv.startswith("vstack(") and ubv.startswith("vstack(")
-            if not okb and not ("action_space.high" in lbv and "action_space.low" not in lbv) and not ("action_space.low" in ubv and "action_space.high" not in ubv):
-                raise AnalysisError(f"{q}: bounds handed to the CEM sampler (`{lbv[:60]}` / `{ubv[:60]}`) are built in a way this check does not follow")
-            ck.ob("R5-planning-chain", q, "bounds-from-action-space", okb, f"lb = {lbv[:60]}, ub = {ubv[:60]}", "" if okb else "lb / ub must be action_space.low / .high stacked over the horizon (not swapped)", loc(mi, fn))
+            lbp, ubp = ts.kwargs.get("lb"), ts.kwargs.get("ub")
+            if lbp is None or ubp is None:
+                raise AnalysisError(f"{q}: lb / ub are not bound by keyword when the CEM sampler is specialised (unrecognised form)")
+            rows = {}
+            for nm_, e_ in (("lb", lbp), ("ub", ubp)):
+                pv = nf.poly(e_, sc, rets[0].id)
+                r_ = _stacked_rows(nf, pv, sc)
+                if r_ is None:
+                    raise AnalysisError(f"{q}: bounds handed to the CEM sampler (`{nm_} = {pv.canon()[:80]}`) are built in a way this check does not follow")
+                rows[nm_] = r_ + (pv.canon(),)
+            lo_, hi_ = nf.poly(parse_expr("action_space.low"), sc, rets[0].id).canon(), nf.poly(parse_expr("action_space.high"), sc, rets[0].id).canon()
+            for nm_, want_ in (("lb", lo_), ("ub", hi_)):
+                kind_, base_, cnt_, txt_ = rows[nm_]
+                if base_ not in (lo_, hi_):
+                    raise AnalysisError(f"{q}: `{nm_} = {txt_[:80]}` is not built from the action space bounds (unrecognised form)")
+                okb = kind_ == "tiled" and base_ == want_
+                ck.ob("R5-planning-chain", q, f"bounds-from-action-space:{nm_}", okb, f"{nm_} = {txt_[:80]}  ({kind_} copies of {base_})",
+                      "" if okb else ("lb / ub must be action_space.low / .high stacked over the horizon (not swapped)" if base_ != want_ else
+                                      f"`{txt_[:70]}` repeats every *component* of the bound {cnt_} times and then cuts rows: with more than one action dimension row t does not hold the bound of every dimension, so candidates of early plan steps are clipped with the wrong dimension's bound"), loc(mi, fn))
             ukw = {k: nf.poly(v, sc, rets[0].id).canon() for k, v in tu.kwargs.items()}
             oka = set(ukw) == {"n_elite", "alpha"} and ukw["alpha"] == "alpha"
             ck.ob("R5-planning-chain", q, "update-arguments", oka, f"{ukw}", "" if oka else "cem_update must receive n_elite and alpha", loc(mi, fn))
@@ -559,6 +617,7 @@ def run(ck, repo: Repo, tier: str):
 
 _D, _T, _H, _C, _P = "rl_blox/algorithm/ddpg.py", "rl_blox/algorithm/td3.py", "rl_blox/blox/function_approximator/policy_head.py", "rl_blox/blox/cross_entropy_method.py", "rl_blox/algorithm/pets.py"
 MUTANTS = [
+    {"id": "c10-bounds-interleaved", "file": "rl_blox/algorithm/pets.py", "rule": "R5", "find": "    lower_bound = jnp.vstack([action_space.low for _ in range(plan_horizon)])", "replace": "    lower_bound = jnp.repeat(jnp.asarray(action_space.low), plan_horizon).reshape(plan_horizon, -1)"},
     {"id": "c10-noise-clip-truthiness", "file": "rl_blox/algorithm/td3.py", "rule": "R2", "find": "    clipped_eps = jnp.clip(eps, -scaled_noise_clip, scaled_noise_clip)\n", "replace": "    clipped_eps = eps\n    if noise_clip:\n        clipped_eps = jnp.clip(eps, -scaled_noise_clip, scaled_noise_clip)\n"},
     {"id": "c10-cem-one-sided", "file": _C, "rule": "R4", "find": "        jnp.minimum((0.5 * lb_dist) ** 2, (0.5 * ub_dist) ** 2),", "replace": "        jnp.minimum((0.5 * lb_dist) ** 2, (0.5 * lb_dist) ** 2),"},
     {"id": "c10-no-clip", "file": _D, "rule": "R", "find": "    return jnp.clip(exploring_action, action_low, action_high)", "replace": "    return exploring_action"},
@@ -582,6 +641,8 @@ MUTANTS = [
     {"id": "c10-pets-last-plan-step", "file": _P, "rule": "R5", "find": "    return plan[0]", "replace": "    return plan[-1] + plan[0]"},
 ]
 BENIGN = [
+    {"id": "c10-b-bounds-tile", "file": "rl_blox/algorithm/pets.py", "find": "    lower_bound = jnp.vstack([action_space.low for _ in range(plan_horizon)])", "replace": "    lower_bound = jnp.tile(action_space.low, (plan_horizon, 1))"},
+    {"id": "c10-b-bounds-repeat-axis0", "file": "rl_blox/algorithm/pets.py", "find": "    upper_bound = jnp.vstack([action_space.high for _ in range(plan_horizon)])", "replace": "    upper_bound = jnp.repeat(action_space.high[None], plan_horizon, axis=0)"},
     {"id": "c10-b-noise-clip-zero-branch", "file": "rl_blox/algorithm/td3.py", "find": "    clipped_eps = jnp.clip(eps, -scaled_noise_clip, scaled_noise_clip)\n", "replace": "    clipped_eps = 0.0 * eps\n    if noise_clip:\n        clipped_eps = jnp.clip(eps, -scaled_noise_clip, scaled_noise_clip)\n"},
     {"id": "c10-b-cem-clip-samples", "file": _C, "find": "    return samples\n\n\ndef cem_update(", "replace": "    return jnp.clip(samples, lb, ub)\n\n\ndef cem_update("},
     {"id": "c10-b-cem-quarter", "file": _C, "find": "        jnp.minimum((0.5 * lb_dist) ** 2, (0.5 * ub_dist) ** 2),", "replace": "        jnp.minimum(0.25 * lb_dist**2, 0.25 * jnp.square(ub_dist)),"},
